@@ -297,7 +297,8 @@ def check(case):
     nt = (nbs != case["pbs"]) and tail and case["k"] >= 1 and followed >= 2 and (t == "positive" or rotated_seen) and gen.all_biases_nonzero(sc)
     return {"nontrivial": nt, "excluded": excluded,
             "labels": [f"type={t}"] + (["neg!=pos"] if nbs != case["pbs"] else []) + (["tail_batch"] if tail else []) + ([f"k={case['k']}"]) +
-                      (["scheduler=" + case.get("sched_kind", "step1")] if case["gamma"] is not None else []) + (["polarised"] if sc.get("polarised") else []) + ([f"starting_epoch={se}"] if se != 1 else []) + (["multi_epoch"] if case["epochs"] > 1 else []) + (["two_stage"] if case.get("stage2_lr") is not None else []) + ["opt_args=" + case.get("opt_args", "none")]}
+                      (["scheduler=" + case.get("sched_kind", "step1")] if case["gamma"] is not None else []) + (["polarised"] if sc.get("polarised") else []) + ([f"starting_epoch={se}"] if se != 1 else []) + (["multi_epoch"] if case["epochs"] > 1 else []) + (["two_stage"] if case.get("stage2_lr") is not None else []) + ["opt_args=" + case.get("opt_args", "none")] +
+                      (["busy_callback"] if (case["torch_seed"] % 4 == 0 and n <= 4 and case["epochs"] <= 4) else []) + (["more_than_32_epochs"] if case["epochs"] > 32 else [])}
 
 
 SUBCHECKS = [Sub("cd_update", check, strategy=lambda tier: runs(tier), quick=320, thorough=6000)]
